@@ -334,7 +334,13 @@ pub fn build<T: Smp>(op: &Value) -> (Option<Inst<T>>, Value) {
     let (r, rp, rq) = parse_ratio(op.get("r").unwrap_or(&Value::Null));
     let (mr, mp, mq) = parse_ratio(op.get("maxrel").unwrap_or(&Value::Null));
     let lreq = gi(op, "L", 8) as usize;
-    let l = 8 * ((lreq + 7) / 8);
+    // "Lraw": the caller-supplied probe interpolator reports exactly the requested length (the
+    // SincInterpolator trait puts no restriction on len(): odd lengths, lengths that are not multiples of 8)
+    let l = if gb(op, "Lraw", false) && gs(op, "probe", "dispatch") == "linear" {
+        lreq.max(2)
+    } else {
+        8 * ((lreq + 7) / 8)
+    };
     let f = gi(op, "F", 2) as usize;
     let fcut = gi(op, "fcut_milli", 950) as f32 / 1000.0;
     let win = window_of(gs(op, "window", "BlackmanHarris2"));
